@@ -468,10 +468,12 @@ const (
 	evReleaseKeep
 	evAbandonA
 	evCall2A
+	evBurstB
+	evCutNewestA
 	nTrEvents
 )
 
-var trEvNames = []string{"call(a)", "call(b)", "ping(a)", "go(a)", "long(a)", "stream(a)", "release", "tick", ">keepalive", ">idle", "closeidle", "kill(a)", "restart(a)", "closestream", "refused-stream(a)", "many-long(a)", "many-long(b)", "release-keep", "abandon(a)", "call-call(a)"}
+var trEvNames = []string{"call(a)", "call(b)", "ping(a)", "go(a)", "long(a)", "stream(a)", "release", "tick", ">keepalive", ">idle", "closeidle", "kill(a)", "restart(a)", "closestream", "refused-stream(a)", "many-long(a)", "many-long(b)", "release-keep", "abandon(a)", "call-call(a)", "burst(b)", "cut-newest(a)"}
 
 func (t *trSys) do(ev int) {
 	switch ev {
@@ -549,6 +551,30 @@ func (t *trSys) do(ev int) {
 				t.nbusy++
 			}
 			t.log = append(t.log, fmt.Sprintf("abandon(a)@conn%d", id))
+		}
+	case evCutNewestA:
+		// the peer closes ONE pooled connection to a (the one dialled last that is still open): the server stays up
+		for i := len(t.n.conns) - 1; i >= 0; i-- {
+			c := t.n.conns[i]
+			if c.addr == "a" && !c.end.p.closed[0] && !c.end.p.closed[1] && !c.end.p.dead && !c.end.p.reset {
+				for _, sc := range t.n.lis["a"].accepted {
+					if sc.id == c.id {
+						sc.end.Close()
+					}
+				}
+				t.settle()
+				t.deadBudget["a"]++
+				t.log = append(t.log, fmt.Sprintf("cut(conn%d)", c.id))
+				break
+			}
+		}
+	case evBurstB:
+		// as many concurrent calls to b as it may have connections, all answered at once
+		if t.up["b"] && t.nbusy == 0 {
+			for i := 0; i < t.effConns && i < 12; i++ {
+				t.longCall("b")
+			}
+			t.release()
 		}
 	case evCall2A:
 		// a sequential caller: two calls one right after the other (nothing else gets to run in between
@@ -745,6 +771,12 @@ func init() {
 	c15ab := []int{evCallA, evLongA, evStreamA, evCloseStream, evTick, evPastKeepAlive, evPastIdle, evCloseIdle}
 	_ = all
 	register(&Scenario{Prop: "C13", Name: "c13/seq-L4", Quick: []Bound{{0, 0}}, Thorough: []Bound{{1, 0}}, Body: trSeqBody("C13", 4, c13ab, trLimits), MaxSteps: 200000})
+	// two hosts, KeepAlive shorter than the housekeeping period (every connection is retired by the tick after its
+	// use, so idle-queue entries come and go all the time), every iteration order of the pool's maps
+	busy2 := []int{evBurstB, evCallA, evCallB, evTick}
+	for _, p := range []string{"C13", "C14"} {
+		register(&Scenario{Prop: p, Name: "c" + p[1:] + "/two-hosts-short-keepalive-L6", Quick: []Bound{{0, 0}, {0, 1}}, Thorough: []Bound{{0, 2}, {1, 0}}, Body: trSeqBodyKA(p, 300*time.Millisecond, 6, busy2, [][2]int{{2, 2}, {3, 2}}, evCallA, evTick), MaxSteps: 1000000, BudgetQ: 30, BudgetT: 300, MapOrder: true, OnlyKeys: []string{p + "/", "C15/close-leaves-connections", "C13/", "panic/", "livelock/", "hang/"}})
+	}
 	register(&Scenario{Prop: "C13", Name: "c13/concurrent", Quick: []Bound{{1, 0}}, Thorough: []Bound{{2, 0}}, BudgetT: 400, Body: trConcBody("C13", trLimits), MaxSteps: 200000})
 	c13k := []int{evCallA, evTick, evPastKeepAlive, evGoA}
 	register(&Scenario{Prop: "C13", Name: "c13/slow-housekeeping-L3", Quick: []Bound{{1, 0}}, Thorough: []Bound{{2, 0}}, Body: trSeqBodyK("C13", true, 3, c13k, trLimits[:3], evCallA), MaxSteps: 200000, BudgetQ: 25})
@@ -777,6 +809,12 @@ func init() {
 	// a sequential caller that issues its next call at once
 	b2b := []int{evCall2A, evTick, evKillA, evRestartA}
 	register(&Scenario{Prop: "C14", Name: "c14/back-to-back-calls-L4", Quick: []Bound{{0, 0}}, Thorough: []Bound{{1, 0}}, Body: trSeqBody("C14", 4, b2b, trLimits[:3], evCallA), MaxSteps: 400000, BudgetQ: 25, BudgetT: 300})
+	// the peer closes one of several pooled connections (the server stays up): calls, idle periods and ticks afterwards
+	oneCut := []int{evCallA, evPastKeepAlive, evTick, evCutNewestA}
+	for _, p := range []string{"C14", "C08"} {
+		keys := []string{p + "/", "panic/", "fatal/", "livelock/", "hang/"}
+		register(&Scenario{Prop: p, Name: "c" + p[1:] + "/one-pooled-connection-cut-L6", Quick: []Bound{{0, 0}}, Thorough: []Bound{{1, 0}}, Body: trSeqBody(p, 6, oneCut, [][2]int{{2, 2}, {3, 2}, {3, 3}}, evManyLongA, evRelease, evCutNewestA), MaxSteps: 1000000, BudgetQ: 25, BudgetT: 300, OnlyKeys: keys})
+	}
 	register(&Scenario{Prop: "C14", Name: "c14/concurrent", Quick: []Bound{{1, 0}}, Thorough: []Bound{{2, 0}}, Body: trConcBody("C14", trLimits[:3]), MaxSteps: 200000})
 	c20ab := []int{evCallA, evCallB, evGoA, evLongA, evStreamA, evTick, evPastKeepAlive, evCloseIdle, evKillA, evRestartA}
 	register(&Scenario{Prop: "C20", Name: "c20/transport-histories-L3", Quick: []Bound{{0, 0}}, Thorough: []Bound{{1, 0}}, Body: trSeqBody("C20", 3, c20ab, [][2]int{{2, 2}, {2, 1}, {3, 2}, {1, 1}}), MaxSteps: 200000, OnlyKeys: []string{"C20/", "panic/", "livelock/"}})
@@ -957,4 +995,43 @@ func c15Forever(x *X) {
 
 func init() {
 	register(&Scenario{Prop: "C15", Name: "c15/forever-durations", Quick: []Bound{{0, 0}, {1, 0}}, Thorough: []Bound{{2, 0}}, Body: c15Forever, MaxSteps: 200000, BudgetQ: 10})
+}
+
+// the pool is locked for a long time by another caller's slow dial to another address while the idle
+// connection of address a reaches its IdleConnTimeout and a call to a is already waiting: whoever gets
+// the pool first afterwards - the housekeeping or the call - the call succeeds (the server of a has
+// been reachable all the time).
+func c14IdleExpiryLocked(x *X) {
+	lim := [][2]int{{1, 1}, {2, 2}}[x.Choose(2)]
+	extra := x.Choose(3) // how far beyond the idle timeout the clock runs while the pool is locked (ticks)
+	t := newTrSys(x, "C14", lim[0], lim[1])
+	t.call("a", formCall)
+	t.advance(tKeepAlive+tTick, ">keepalive") // the connection is retired to the idle queue
+	t.n.holdDial["b"] = true
+	ob := newUcall(0x51, 0, 20, formCall)
+	vs.GoNamed("caller-b", func() { ob.err = t.tr.Call("b", ob.method, &ob.args, &ob.reply); ob.ret = true })
+	vs.Quiesce()
+	for i := 0; i < int(t.idle/tTick)+extra; i++ {
+		vt.Advance(tTick)
+		vs.Quiesce()
+	}
+	ca := newUcall(0x41, 0, 24, formCall)
+	vs.GoNamed("caller-a", func() { ca.err = t.tr.Call("a", ca.method, &ca.args, &ca.reply); ca.ret = true })
+	vs.Quiesce()
+	t.n.holdDial["b"] = false
+	vs.Quiesce()
+	if !ca.ret || !ob.ret {
+		x.Fail("C14/call-hangs/idle-expiry", "after the slow dial to b ended: call to a returned=%v, call to b returned=%v", ca.ret, ob.ret)
+	} else if ca.err != nil || !eqBytes(ca.reply, ca.want()) {
+		x.Fail("C14/call-on-live-server-failed/idle-expiry", "the server of a has been reachable all the time; a call to a that waited for the pool while a's idle connection reached its IdleConnTimeout failed with %v (limits %v, %d ticks beyond the timeout)", ca.err, lim, extra)
+	}
+	if e := t.call("a", formCall); e != nil {
+		x.Fail("C14/call-on-live-server-failed/idle-expiry", "the next call to a failed with %v", e)
+	}
+	x.Outcome("lim=%v extra=%d a=%s b=%s dials=%d", lim, extra, errStr(ca.err), errStr(ob.err), t.n.dials["a"])
+	t.shutdown()
+}
+
+func init() {
+	register(&Scenario{Prop: "C14", Name: "c14/idle-expiry-while-pool-locked", Quick: []Bound{{0, 0}, {1, 0}}, Thorough: []Bound{{2, 0}}, Body: c14IdleExpiryLocked, MaxSteps: 200000, BudgetQ: 15})
 }
